@@ -879,7 +879,8 @@ pub fn run_check(sim: &'static dyn Sim, opt: &BatchOptions) -> i32 {
         }
         continue;
       }
-      if by_sig.contains_key(&v.signature) {
+      if by_sig.contains_key(&v.signature) || !known_hit.insert(format!("extra:{}", v.signature)) {
+        // one report per signature
         continue;
       }
       let dir = verif_dir().join("replays").join(sim.id());
@@ -1027,6 +1028,26 @@ pub fn replay_main(lookup: impl Fn(&str) -> Option<&'static dyn Sim>, file: &Pat
   let tz = pstr(&doc, "tz").to_string();
   let want = doc.get("violation").and_then(Violation::from_json);
   let tz = if tz.is_empty() { "UTC0".to_string() } else { tz };
+  // a document of the pristine-process pass: the run behind its predecessors against the run alone
+  if let Some(pristine) = doc.get("pristine_log_hash").and_then(|h| h.as_u64()) {
+    let behind = exec_isolated(sim, &doc, "replay", 0, &tz);
+    let mut alone_doc = doc.clone();
+    if let Some(map) = alone_doc.as_object_mut() {
+      map.remove("prefix");
+    }
+    let alone = exec_isolated(sim, &alone_doc, "replay", 0, &tz);
+    if let Some(e) = behind.harness_error.as_ref().or(alone.harness_error.as_ref()) {
+      println!("HARNESS-ERROR {}", e);
+      return 2;
+    }
+    if behind.log_hash != alone.log_hash {
+      println!("VIOLATION property={} replay={}", sim.id(), file.display());
+      println!("  reproduced: the run returns other values behind the runs of its block (log hash {}) than alone in a fresh process (log hash {}, recorded {})", behind.log_hash, alone.log_hash, pristine);
+      return 1;
+    }
+    println!("not reproduced: the run of {} returns the same values alone and behind its predecessors on this tree", file.display());
+    return 0;
+  }
   let mut out = exec_isolated(sim, &doc, "replay", 0, &tz);
   if out.harness_error.as_deref().map(|e| e.contains("diverged")).unwrap_or(false) {
     // the recorded schedule belongs to other code than this tree: search the same plan again
